@@ -161,7 +161,7 @@ def existenceOK (op : Op) (o : Obs) (old pre : List SDt) : Bool :=
 def flexDue (sp : SpecSt) (op : Op) (o : Obs) (d : SDt) : Option Int :=
   match op with
   | .result s te now =>
-    if o.rc == 1 && !isOK sp.kind s && d.inWindow now then some te else none
+    if o.rc == 1 && !isOK sp.kind s && d.inWindow now then some (max te d.start) else none
   | .add p now =>
     if o.rc == 1 && p.id == d.id && sp.problem && d.inWindow now then some (max (max d.start now) sp.since) else none
   | _ => none
@@ -199,9 +199,9 @@ def chkWriteOnce (sp : SpecSt) (op : Op) (o : Obs) : Bool :=
 def chkWindow (sp : SpecSt) (op : Op) (o : Obs) : Bool :=
   ((preDts sp op o).zip (postDts sp op o)).all (fun (a, b) => !(b.alive && a.trig == 0 && b.trig != 0) || b.inWindow op.now)
 
-/-- … and the time it records as the moment it took effect does not lie before its window (false of the
-    code for a result executed before `start_time` but processed inside the window, and for a downtime
-    chained to one that took effect earlier: F-C05e). -/
+/-- … and the time it records as the moment it took effect does not lie before its window (F-C05e,
+    repaired by 2efb740: a result executed before `start_time` but processed inside the window, or a
+    trigger time inherited through a chain, is clamped to the downtime's own `start_time`). -/
 def chkTrigStart (sp : SpecSt) (op : Op) (o : Obs) : Bool :=
   ((preDts sp op o).zip (postDts sp op o)).all (fun (a, b) =>
     !(b.alive && a.trig == 0 && b.trig != 0) || decide (a.start ≤ b.trig))
